@@ -1026,7 +1026,8 @@ def run_values(spec, rec):
 # The tree generator always builds independent operands, so aliasing of the two
 # sides of an operator needs its own generator.
 
-SELF_OPS = ["add", "sub", "mul", "iadd", "isub", "imul", "ipow2", "pow2", "ipow3", "iadd_items", "imul_dict_of_self"]
+SELF_OPS = ["add", "sub", "mul", "iadd", "isub", "imul", "ipow2", "pow2", "ipow3", "iadd_items", "imul_dict_of_self",
+            "pow4", "pow5", "ipow5", "pow6", "ipow6", "pow7", "ipow9"]
 
 
 def selfop_spec():
@@ -1050,7 +1051,12 @@ def run_selfop(spec, rec):
     import qubovert as qv
     kind, op = spec["kind"], spec["op"]
     spin = gen.is_spin(kind)
-    a = lib(gen.build, qv, kind, [[tuple(k), v] for k, v in spec["terms"]], what="build")
+    terms = [[tuple(k), v] for k, v in spec["terms"]]
+    if op.startswith(("pow", "ipow")) and int(op.lstrip("ipow")) >= 4:
+        # high powers: small integer coefficients and at most 3 terms keep every intermediate exact and small
+        terms = [[k, int(v) if float(v).is_integer() else (1 if v > 0 else -1)] for k, v in terms[:3]]
+        terms = [[k, max(-2, min(2, v)) or 1] for k, v in terms]
+    a = lib(gen.build, qv, kind, terms, what="build")
     before = dict(a)
     order = list(spec["labels"])
     ta = ref.table(before, order, spin)
@@ -1082,11 +1088,20 @@ def run_selfop(spec, rec):
         elif op == "imul_dict_of_self":
             x *= a
             x *= 1
+        elif op.startswith("pow"):
+            return a ** int(op[3:])
+        elif op.startswith("ipow"):
+            x **= int(op[4:])
         return x
     R = lib(f, what="selfop_" + op)
-    want = {"add": 2 * ta, "iadd": 2 * ta, "iadd_items": 2 * ta, "sub": 0 * ta, "isub": 0 * ta,
-            "mul": ta * ta, "imul": ta * ta, "pow2": ta * ta, "ipow2": ta * ta, "ipow3": ta * ta * ta,
-            "imul_dict_of_self": ta * ta}[op]
+    if op.startswith(("pow", "ipow")):
+        want = ta ** int(op.lstrip("ipow"))       # exact: dyadic values of small magnitude (checked below)
+        if not np.all(np.abs(want) < 2.0 ** 50):
+            rec.add("selfop_too_big")
+            return
+    else:
+        want = {"add": 2 * ta, "iadd": 2 * ta, "iadd_items": 2 * ta, "sub": 0 * ta, "isub": 0 * ta,
+                "mul": ta * ta, "imul": ta * ta, "imul_dict_of_self": ta * ta}[op]
     got = ref.table(dict(R), order, spin)
     if not np.array_equal(got, want):
         i = int(np.nonzero(got != want)[0][0])
@@ -1106,7 +1121,7 @@ def run_selfop(spec, rec):
             raise Violation("selfop_returns_operand/%s" % op, "")
         if gen.snapshot(a) != snap:
             raise Violation("selfop_operand_changed/%s" % op, "%r -> %r" % (snap, gen.snapshot(a)))
-    rec.case(spec, op in ("mul", "imul", "pow2", "ipow2", "ipow3", "imul_dict_of_self") and len(before) >= 2,
+    rec.case(spec, (op in ("mul", "imul", "imul_dict_of_self") or "pow" in op) and len(before) >= 2,
              ["selfop=" + op, "kind=" + kind])
 
 
